@@ -309,7 +309,8 @@ func vOr(ms ...VM) VM {
 
 // vIs matches one specific SSA value (through origins).
 func vIs(w ssa.Value) VM {
-	return anyOrigin(func(v ssa.Value) bool { return v == w })
+	inner := anyOrigin(func(v ssa.Value) bool { return v == w })
+	return func(v ssa.Value) bool { return v == w || inner(v) }
 }
 
 // vConstInt matches an integer constant with the given value.
@@ -352,7 +353,18 @@ func vFieldLoad(field string, base VM) VM {
 			if !ok || fieldAddrName(fa) != field {
 				return false
 			}
-			return base == nil || base(fa.X)
+			if base == nil || base(fa.X) {
+				return true
+			}
+			// struct value held in a local cell: match what was stored into it
+			if cell := cellOf(fa.X); cell != nil {
+				for _, s := range cellStores(cell) {
+					if base(s) {
+						return true
+					}
+				}
+			}
+			return false
 		case *ssa.Field:
 			if fieldName(x.X.Type(), x.Field) != field {
 				return false
